@@ -1,6 +1,108 @@
-(* placeholder while the correspondence is being built *)
-From Coq Require Import List ZArith.
-From PV Require Import C04.Model C04.Spec.
-Theorem c04_placeholder : sadd None None = None.
-Proof. exact eq_refl. Qed.
-Print Assumptions c04_placeholder.
+(* C04 — Beam search returns distinct, correctly scored, best-first paths per element.
+   Property theorems only: each is closed by [exact <lemma>] and followed by
+   [Print Assumptions].  The harness re-checks this file on every run.
+
+   Reading guide.  [search topk calc dstate V width eos fin_all pad max_iters inits] is the
+   model of BeamSearch.forward (Model.v): [topk] any function meeting [topk_ok] (sorted,
+   duplicate-free, dominates the rest: whatever tie-break torch uses), [calc] any language
+   model meeting [lm_ok] (its answer at position idx depends on the tokens before idx only;
+   V entries per row) with an arbitrary state type threaded through the flat [prev] list,
+   [inits] the batch of initial states (length 1 when batch_size is unset).
+   [beams_of ...] = [fst (fst (search ...))] : one list of [width] slots per batch element;
+   [vpath sl] = the first [len sl] cells of the slot's column (what y[:y_lens] denotes),
+   [sc sl] = its score, [None] = -inf.  [chain calc s0 p] is the language model run afresh
+   on [p] from state [s0], adding up the log-probability of each token of [p]. *)
+From Coq Require Import List ZArith Arith Bool.
+From PV Require Import C04.Model C04.Spec C04.Topk C04.Refine C04.Proofs.
+Import ListNotations.
+
+(* result shape: one beam per element, [width] slots each, every length within the tensor *)
+Theorem c04_beam_shape : forall (state : Type) topk (calc : list Z -> state -> nat -> list score * state)
+    dstate V width eos fin_all pad,
+  topk_ok topk -> lm_ok calc V -> 1 <= V -> 1 <= width -> forall max_iters inits,
+  length (beams_of topk calc dstate V width eos fin_all pad max_iters inits) = length inits /\
+  forall beam, In beam (beams_of topk calc dstate V width eos fin_all pad max_iters inits) ->
+    length beam = width /\ forall sl, In sl beam -> len sl <= length (col sl).
+Proof. exact @shape. Qed.
+Print Assumptions c04_beam_shape.
+
+(* "its reported log-probability equals the model's own chained log-probability of exactly
+   that token sequence" (a sequence over the vocabulary, as long as the reported length) *)
+Theorem c04_beam_scores_chain : forall (state : Type) topk (calc : list Z -> state -> nat -> list score * state)
+    dstate V width eos fin_all pad,
+  topk_ok topk -> lm_ok calc V -> 1 <= V -> 1 <= width -> forall max_iters inits n,
+  n < length inits ->
+  forall sl z, In sl (nth n (beams_of topk calc dstate V width eos fin_all pad max_iters inits) []) ->
+  sc sl = Some z ->
+  chain calc (nth n inits dstate) (vpath sl) = Some z /\ in_vocab V (vpath sl) /\
+  length (vpath sl) = len sl.
+Proof. exact @scores_chain. Qed.
+Print Assumptions c04_beam_scores_chain.
+
+(* "every returned path with a finite score ... stops at its first end-of-sequence (counted
+   in its length)": no eos before the last valid position *)
+Theorem c04_beam_eos_first : forall (state : Type) topk (calc : list Z -> state -> nat -> list score * state)
+    dstate V width eos fin_all pad,
+  topk_ok topk -> lm_ok calc V -> 1 <= V -> 1 <= width -> forall max_iters inits n,
+  n < length inits ->
+  forall sl, In sl (nth n (beams_of topk calc dstate V width eos fin_all pad max_iters inits) []) ->
+  sfin (sc sl) = true -> eos_first eos (vpath sl).
+Proof. exact @eos_is_first. Qed.
+Print Assumptions c04_beam_eos_first.
+
+(* "every returned path with a finite score is distinct within its beam" *)
+Theorem c04_beam_paths_distinct : forall (state : Type) topk (calc : list Z -> state -> nat -> list score * state)
+    dstate V width eos fin_all pad,
+  topk_ok topk -> lm_ok calc V -> 1 <= V -> 1 <= width -> forall max_iters inits n,
+  n < length inits ->
+  let beam := nth n (beams_of topk calc dstate V width eos fin_all pad max_iters inits) [] in
+  forall i j, i < width -> j < width -> i <> j ->
+  sfin (sc (nth i beam dslot)) = true -> sfin (sc (nth j beam dslot)) = true ->
+  vpath (nth i beam dslot) <> vpath (nth j beam dslot).
+Proof. exact @paths_distinct. Qed.
+Print Assumptions c04_beam_paths_distinct.
+
+(* "paths are ordered best first and unusable slots carry minus infinity at the end" *)
+Theorem c04_beam_sorted_inf_last : forall (state : Type) topk (calc : list Z -> state -> nat -> list score * state)
+    dstate V width eos fin_all pad,
+  topk_ok topk -> lm_ok calc V -> 1 <= V -> 1 <= width -> forall max_iters inits n,
+  n < length inits ->
+  let beam := nth n (beams_of topk calc dstate V width eos fin_all pad max_iters inits) [] in
+  sorted_desc (map sc beam) /\
+  forall i j, i <= j -> j < width -> sc (nth i beam dslot) = None -> sc (nth j beam dslot) = None.
+Proof. exact @sorted_inf_last. Qed.
+Print Assumptions c04_beam_sorted_inf_last.
+
+(* "what is returned for one batch element is what searching that element alone returns,
+   however early or late the other elements finish": for EVERY batch [inits], element n of the
+   batched search and the search of [nth n inits] alone return the same valid prefixes and
+   scores, slot by slot (the batched loop freezes finished elements, shares the decision to
+   grow y, and indexes one flat state list; none of it leaks between elements) *)
+Theorem c04_beam_batch_independent : forall (state : Type) topk (calc : list Z -> state -> nat -> list score * state)
+    dstate V width eos fin_all pad,
+  topk_ok topk -> lm_ok calc V -> 1 <= V -> 1 <= width -> forall max_iters inits n,
+  n < length inits ->
+  map vslot (nth n (beams_of topk calc dstate V width eos fin_all pad max_iters inits) [])
+  = map vslot (nth 0 (beams_of topk calc dstate V width eos fin_all pad max_iters [nth n inits dstate]) []).
+Proof. exact @batch_independent. Qed.
+Print Assumptions c04_beam_batch_independent.
+
+(* the executable topk of the correspondence (stable) meets the specification assumed above *)
+Theorem c04_topk_stable_ok : topk_ok topk_stable.
+Proof. exact topk_stable_ok. Qed.
+Print Assumptions c04_topk_stable_ok.
+
+(* the stateful language model of the correspondence meets [lm_ok] *)
+Theorem c04_hash_lm_ok : forall a b c M V table,
+  Forall (fun r => length r = V) table -> lm_ok (hash_calc a b c M V table) V.
+Proof. exact hash_calc_lm_ok. Qed.
+Print Assumptions c04_hash_lm_ok.
+
+(* non-vacuity: a concrete stateful LM, a batch of two initial states whose searches finish at
+   different steps, width 2 < number of complete sequences (pruning happens) *)
+Example c04_nonvacuous :
+  topk_ok topk_stable /\ lm_ok ex_lm 2 /\
+  map (map vslot) (beams_of topk_stable ex_lm 0%Z 2 2 (Some 1%Z) true (-100)%Z 3 [0%Z; 1%Z])
+  = [[([0%Z; 1%Z], Some (-5)%Z); ([1%Z], Some (-10)%Z)];
+     [([1%Z], Some (-2)%Z); ([0%Z; 0%Z; 1%Z], Some (-17)%Z)]].
+Proof. exact ex_nonvacuous. Qed.
